@@ -1,1 +1,66 @@
-From Verif Require Import Common.Base C02.Model.
+(* C02/Witness.v — non-vacuity of the theorems' hypotheses and further concrete runs (vm_compute). *)
+From Verif Require Import Common.Base C02.Model C02.Proofs C02.Proofs5.
+Local Open Scope Z_scope.
+
+Definition wc (k : qkind) (b w : bool) : cfg := {| kind := k; cap := 4; blocking := b; wfr := w |}.
+
+(* a reachable state with something queued, something in flight, something finished, a blocked producer, a
+   cancelled one, a refused one and a producer waiting for its result: the hypotheses of mq_size_exact,
+   pq_size_bounds, handoff_*, cond_token_invariant, wait_for_result_own_outcome are satisfiable non-trivially *)
+Definition w_trace : list label :=
+  [LOffer 0 2; LOffer 1 1; LOffer 2 1; LRead; LOffer 3 0; LOffer 4 (-1); LOffer 5 9; LOffer 6 2; LOffer 7 1;
+   LCancel 7; LSelCtx 7; LRelockCtx 7; LRead; LDone 0 7; LResult 0; LSelTok 6; LRelockTok 6].
+
+Example w_reachable : reachable (wc Mem true true) (final (wc Mem true true) w_trace).
+Proof. exists w_trace. split; [unfold w_trace; repeat constructor; simpl; intros; discriminate|vm_compute; reflexivity]. Qed.
+
+Example w_state :
+  let s := final (wc Mem true true) w_trace in
+  size s = 4 /\ items s = [(2%nat, 1); (6%nat, 2)] /\ inflight s = [(1%nat, 1)] /\ fin s = [(0%nat, 7)] /\
+  acc s = [0; 1; 2; 6]%nat /\ hand s = [0; 1]%nat /\
+  pget 0%nat (prods s) = Some (PRet (RRes 7)) /\ pget 3%nat (prods s) = Some (PRet ROk) /\
+  pget 4%nat (prods s) = Some (PRet RInvalid) /\ pget 5%nat (prods s) = Some (PRet RTooLarge) /\
+  pget 6%nat (prods s) = Some PAwait /\ pget 7%nat (prods s) = Some (PRet RCtx).
+Proof. vm_compute. repeat split; reflexivity. Qed.
+
+(* offer_refused_iff / relock_admitted_iff: each outcome class occurs *)
+Example w_offer_codes :
+  option_map snd (step (wc Mem false false) init (LOffer 0 4)) = Some c_enq /\
+  option_map snd (step (wc Mem false true) init (LOffer 0 4)) = Some c_await /\
+  option_map snd (step (wc Mem false false) init (LOffer 0 5)) = Some c_toolarge /\
+  option_map snd (step (wc Pers false false) init (LOffer 0 5)) = Some c_full /\
+  option_map snd (step (wc Pers true false) init (LOffer 0 5)) = Some c_blocked /\
+  option_map snd (step (wc Pers false false) init (LOffer 0 0)) = Some c_enq /\
+  option_map snd (step (wc Mem false false) init (LOffer 0 0)) = Some c_zero.
+Proof. vm_compute. repeat split; reflexivity. Qed.
+
+(* no_lost_wakeup_partial: a quiescent, S1-free, lock-free reachable state with producers that were blocked,
+   cancelled and released exists (hypotheses satisfiable) *)
+Definition q_trace : list label :=
+  [LOffer 0 4; LOffer 1 2; LOffer 2 2; LCancel 2; LSelCtx 2; LRelockCtx 2; LRead; LDone 0 0; LSelTok 1;
+   LRelockTok 1; LRead; LDone 1 0].
+Example q_quiescent :
+  let c := wc Pers true false in let s := final c q_trace in
+  reachable_fit c s /\ quiescent c s /\ lock s = Free /\ hand s = [0; 1]%nat /\
+  pget 1%nat (prods s) = Some (PRet ROk) /\ pget 2%nat (prods s) = Some (PRet RCtx).
+Proof.
+  split; [|split].
+  - exists q_trace. split; [unfold q_trace; repeat constructor; simpl; intros; lia|vm_compute; reflexivity].
+  - intros l Hi. destruct l; try discriminate Hi; try (vm_compute; reflexivity);
+      try (destruct p as [|[|[|p]]]; vm_compute; reflexivity);
+      try (destruct id as [|[|[|id]]]; vm_compute; reflexivity).
+  - vm_compute. repeat split; reflexivity.
+Qed.
+
+(* S1 collateral: the oversized waiter also steals the wake-ups of a waiter that fits *)
+Example s1_steals_wakeups :
+  exists c s, kind c = Pers /\ reachable c s /\ quiescent c s /\ lock s = Free /\
+    size s = 0 /\ items s = [] /\ inflight s = [] /\
+    pget 1%nat (prods s) = Some (PInSelect 1) /\ 1 <= cap c /\ ~ In 1%nat (cancelled s).
+Proof. exact s1_steals_wakeups_l. Qed.
+
+(* the persistent queue's reported size under-counts after its reset (allowed by the property's wording) *)
+Example pq_size_undercounts :
+  exists c s, kind c = Pers /\ reachable_fit c s /\
+    size s = 4 /\ cap c = 4 /\ sum_sz (items s ++ inflight s) = 7.
+Proof. exact pq_size_undercounts_l. Qed.
